@@ -41,6 +41,8 @@ class ExprMixin:
             from .contracts import SPECS
             if n in SPECS:
                 return FuncV('spec.' + n)
+            if n in ('abs', 'min', 'max', 'len'):
+                return FuncV('builtin.' + n)
         g = self.lookup_global(n)
         if g is not NotImplemented:
             return g
@@ -226,6 +228,10 @@ class ExprMixin:
             a = int(a)
         if isinstance(b, bool):
             b = int(b)
+        if op is ast.Mult and is_z3(b) and b.sort() == BoolS and is_int(a):
+            return z3.If(b, zint(a), 0)
+        if op is ast.Mult and is_z3(a) and a.sort() == BoolS and is_int(b):
+            return z3.If(a, zint(b), 0)
         if is_z3(a) and a.sort() == BoolS:
             a = zint(a)
         if is_z3(b) and b.sort() == BoolS:
